@@ -59,9 +59,15 @@ class Obj:
     def __init__(self, cls):
         self.cls = cls
         self.attrs = {}
+        self.items = {}        # obj[key] for repo classes that derive from dict
 
     def __repr__(self):
         return '<%s %r>' % (self.cls.name if self.cls else 'obj', self.attrs)
+
+
+class Model:
+    """Base class for stand-in objects a rule hands to interpreted code (stub verifiers, result collectors):
+    the interpreter may read and set their attributes, subscript them and call them."""
 
 
 class Interp:
@@ -176,12 +182,19 @@ class Interp:
                 self.assign(a, b, env, mod)
         elif isinstance(t, ast.Attribute):
             o = self.expr(t.value, env, mod)
+            if isinstance(o, Model):
+                setattr(o, t.attr, v)
+                return
             if not isinstance(o, Obj):
                 raise Unsupported('attribute store on %r' % type(o).__name__)
             o.attrs[t.attr] = v
         elif isinstance(t, ast.Subscript):
             o = self.expr(t.value, env, mod)
             if isinstance(o, (list, dict)):
+                o[self.expr(t.slice, env, mod)] = v
+            elif isinstance(o, Obj):
+                o.items[self.expr(t.slice, env, mod)] = v
+            elif isinstance(o, Model):
                 o[self.expr(t.slice, env, mod)] = v
             else:
                 raise Unsupported('subscript store')
@@ -267,6 +280,11 @@ class Interp:
                 hi = self.expr(e.slice.upper, env, mod) if e.slice.upper else None
                 st = self.expr(e.slice.step, env, mod) if e.slice.step else None
                 return o[lo:hi:st]
+            if isinstance(o, Obj):
+                k = self.expr(e.slice, env, mod)
+                if k not in o.items:
+                    raise KeyError(k)
+                return o.items[k]
             return o[self.expr(e.slice, env, mod)]
         if isinstance(e, (ast.ListComp, ast.GeneratorExp, ast.SetComp)):
             out = []
@@ -286,6 +304,8 @@ class Interp:
             o = self.expr(e.value, env, mod) if not (isinstance(e.value, ast.Name) and e.value.id == 're') else None
             if isinstance(o, tuple) and len(o) == 2 and o[0] == '#classof' and e.attr == '__name__':
                 return o[1].name
+            if isinstance(o, Model):
+                return getattr(o, e.attr)
             if isinstance(o, Obj):
                 if e.attr in o.attrs:
                     return o.attrs[e.attr]
@@ -350,18 +370,23 @@ class Interp:
         if isinstance(fn, ast.Name) and fn.id in SAFE_BUILTINS and fn.id not in env and fn.id not in mod.syms:
             if fn.id in ('all', 'any', 'sorted', 'min', 'max', 'sum', 'list', 'tuple', 'set') and args and isinstance(args[0], list):
                 pass
-            return SAFE_BUILTINS[fn.id](*args, **kwargs)
+            return SAFE_BUILTINS[fn.id](*self._py(args), **{k: self._py1(v) for k, v in kwargs.items()})
         if isinstance(fn, ast.Attribute):
             # method on a plain Python value
             try:
                 o = self.expr(fn.value, env, mod)
             except Unsupported:
                 raise
+            if isinstance(o, Model):
+                return getattr(o, fn.attr)(*self._py(args), **{k: self._py1(v) for k, v in kwargs.items()})
             if isinstance(o, Obj):
                 if fn.attr in o.attrs:
                     return self.apply(o.attrs[fn.attr], args, kwargs)
                 m = self.prog.lookup_method(o.cls.qn, fn.attr)
                 if m is None:
+                    if fn.attr in ('values', 'keys', 'items', 'get', 'pop', 'update', 'setdefault', '__contains__'):
+                        # a repo class that derives from dict / OrderedDict: its entries live in o.items
+                        return getattr(o.items, fn.attr)(*args, **kwargs)
                     raise Unsupported('method %s of %s' % (fn.attr, o.cls.name))
                 return self.invoke(m, args, kwargs, o)
             for t, names in SAFE_METHODS.items():
@@ -395,8 +420,19 @@ class Interp:
                 env[p] = a
             return self.expr(lam.body, env, mod)
         if callable(f) and f in SAFE_BUILTINS.values():
+            return f(*self._py(args), **{k: self._py1(v) for k, v in kwargs.items()})
+        if isinstance(f, Model) or getattr(f, '_pyeval_model', False):
             return f(*args, **kwargs)
         raise Unsupported('call of %r' % (f,))
+
+    def _py1(self, v):
+        """A lambda of the interpreted program as a Python callable (for sorted(key=...), map, filter ...)."""
+        if isinstance(v, tuple) and v and v[0] == '#lambda':
+            return lambda *a: self.apply(v, list(a), {})
+        return v
+
+    def _py(self, args):
+        return [self._py1(a) for a in args]
 
     def invoke(self, m, args, kwargs, selfobj):
         if self.on_call is not None:
